@@ -3,7 +3,7 @@ use crate::api::{BodyFilter, TextAction};
 use crate::filter::HtmlFilterBodyAction;
 #[cfg(feature = "compress")]
 use crate::filter::encoding::{DecodeFilterBody, EncodeFilterBody, get_encoding_filters};
-use crate::filter::error::Result;
+use crate::filter::error::{FilterBodyError, Result};
 use crate::filter::html_body_action::HtmlBodyVisitor;
 use crate::filter::text_filter_body::{TextFilterAction, TextFilterBodyAction};
 use crate::http::Header;
@@ -133,35 +133,51 @@ impl FilterBodyAction {
 
         match self.do_end(unit_trace) {
             Ok(end) => end,
-            Err(err) => {
+            Err((err, passthrough)) => {
                 log::error!("error while ending filtering: {}", err);
                 self.in_error = true;
-
-                // Nothing of this call has been emitted yet: give back what the html filters still hold, oldest bytes first
-                let mut passthrough = Vec::new();
-
-                for item in self.chain.iter_mut().rev() {
-                    if let FilterBodyActionItem::Html(html_body_filter) = item {
-                        passthrough.extend(html_body_filter.end());
-                    }
-                }
 
                 passthrough
             }
         }
     }
 
-    fn do_end(&mut self, mut unit_trace: Option<&mut UnitTrace>) -> Result<Vec<u8>> {
-        let mut data = None;
+    /// On failure, also gives back the bytes that must be passed through: nothing of this call has been emitted yet
+    fn do_end(&mut self, mut unit_trace: Option<&mut UnitTrace>) -> std::result::Result<Vec<u8>, (FilterBodyError, Vec<u8>)> {
+        let mut data: Option<Vec<u8>> = None;
 
-        for item in &mut self.chain {
-            let new_data = match data {
-                None => item.end()?,
-                Some(str) => {
-                    let mut end_str = item.filter(str, unit_trace.as_deref_mut())?;
-                    end_str.extend(item.end()?);
+        for index in 0..self.chain.len() {
+            let in_flight = data.clone().unwrap_or_default();
+            let item = &mut self.chain[index];
 
-                    end_str
+            let result = match data {
+                None => item.end(),
+                Some(str) => match item.filter(str, unit_trace.as_deref_mut()) {
+                    Ok(mut end_str) => item.end().map(|end| {
+                        end_str.extend(end);
+
+                        end_str
+                    }),
+                    Err(err) => Err(err),
+                },
+            };
+
+            let new_data = match result {
+                Ok(new_data) => new_data,
+                Err(err) => {
+                    // Previous stages have handed over everything they held (it is in flight); this stage and the
+                    // next ones hold older bytes, the last stage the oldest
+                    let mut passthrough = Vec::new();
+
+                    for item in self.chain[index..].iter_mut().rev() {
+                        if let FilterBodyActionItem::Html(html_body_filter) = item {
+                            passthrough.extend(html_body_filter.end());
+                        }
+                    }
+
+                    passthrough.extend(in_flight);
+
+                    return Err((err, passthrough));
                 }
             };
 
